@@ -295,3 +295,33 @@ pub proof fn lemma_perm_overlap(orig: Seq<(u64, usize)>, o: Seq<(u64, usize)>, p
         assert(!ext_disjoint(orig[b], orig[a]));
     }
 }
+
+// ---- decode(): loop invariants as predicates (also pins the element types for inference) -------
+pub open spec fn valid_inv(v: Seq<JournalState>, d: Seq<u8>, upto: int, total: u64) -> bool {
+    &&& forall|i: int| 0 <= i < v.len() ==> 0 <= (#[trigger] v[i]).slot < upto && slot_valid(slot_bytes(d, v[i].slot as int), total)
+            && state_of_slot(v[i], d, v[i].slot as int)
+    &&& forall|k: int| 0 <= k < upto && slot_valid(#[trigger] slot_bytes(d, k), total) ==> exists|i: int| 0 <= i < v.len() && (#[trigger] v[i]).slot == k
+}
+
+pub open spec fn missing_inv(m: Seq<usize>, d: Seq<u8>, upto: int) -> bool {
+    &&& forall|i: int| 0 <= i < m.len() ==> 0 <= #[trigger] m[i] < upto && all_zero_seq(slot_bytes(d, m[i] as int))
+    &&& forall|i: int, j: int| 0 <= i < j < m.len() ==> m[i] < m[j]
+    &&& forall|k: int| 0 <= k < upto && all_zero_seq(#[trigger] slot_bytes(d, k)) ==> exists|i: int| 0 <= i < m.len() && #[trigger] m[i] == k
+}
+
+pub proof fn lemma_zero_slot_invalid(s: Seq<u8>, total: u64)
+    requires s.len() == 12288, all_zero_seq(s),
+    ensures !slot_valid(s, total),
+{
+    assert(s.subrange(0, 8)[1] == s[1]);
+    assert(magic_spec()[1] == 0x46);
+}
+
+// what decode() must return
+pub open spec fn decode_post(st: JournalState, d: Seq<u8>, total: u64) -> bool {
+    ||| exists|k: int| 0 <= k < 2 && slot_valid(#[trigger] slot_bytes(d, k), total) && state_of_slot(st, d, k)
+            && (forall|k2: int| 0 <= k2 < 2 && slot_valid(#[trigger] slot_bytes(d, k2), total) ==> f64(slot_bytes(d, k2), 16) <= st.generation as nat)
+    ||| (st.generation == 0 && st.extents@.len() == 0 && 0 <= st.slot < 2 && all_zero_seq(slot_bytes(d, st.slot as int))
+            && (forall|k2: int| 0 <= k2 < 2 ==> !slot_valid(#[trigger] slot_bytes(d, k2), total))
+            && (forall|k2: int| st.slot < k2 < 2 ==> !all_zero_seq(#[trigger] slot_bytes(d, k2))))
+}
